@@ -87,6 +87,23 @@ def match_known(prop: str, ob: Ob, findings) -> Optional[dict]:
     return None
 
 
+_KF_PREFIXES = None
+
+
+def known_related(keybase: str) -> bool:
+    """True if an open known finding names an obligation of the same (property, function signature): such obligations
+    get the short solver budget only (they are expected to fail; escalation would only burn time)."""
+    global _KF_PREFIXES
+    if _KF_PREFIXES is None:
+        _KF_PREFIXES = set()
+        for f in load_known_findings():
+            if f.get("status") == "open":
+                for pat in f.get("obligations", []):
+                    parts = pat.replace("[[]", "[").replace("[]]", "]").split("/")
+                    _KF_PREFIXES.add("/".join(parts[:2]))
+    return "/".join(keybase.split("/")[:2]) in _KF_PREFIXES
+
+
 class Check:
     """Collects the obligations of one property run and turns them into verdict + evidence."""
 
